@@ -95,25 +95,36 @@ func terminal(kind string) bool {
 	return true
 }
 
-// knownClass decides the recorded defect class from the input alone.
+// knownClass decides the recorded defect class from the input alone. No class is recorded for the
+// rounds any more: the transport-level CONNECT rejection (F12) and the CONNECT — the client's, or the
+// proxy transport's own — that the upstream proxy answers with 101 (F40, class
+// "connect-rejection-status-101") are repaired; their inputs are generated on every run (run.go:
+// targets "f12" and "f40") and a failure on them is a violation.
 func knownClass(rc *roundCase) string {
-	cls := ""
-	var walk func(xs []xspec)
-	walk = func(xs []xspec) {
-		for _, x := range xs {
-			// a CONNECT — the client's, or the proxy transport's own (f12-*) — that the upstream proxy
-			// answers with 101. (A transport-level rejection with any other status is the repaired F12:
-			// no class, a failure there is a violation.)
-			if (x.Kind == "connect-reject" || x.Kind == "f12-plain" || x.Kind == "f12-mitm") && x.Status == 101 {
-				cls = "connect-rejection-status-101" // F40
-			}
-			walk(x.Inner)
+	return ""
+}
+
+// connect101 names the shape of a CONNECT answered 101 by an upstream proxy ("" if x is none): whose CONNECT it
+// is (the client's, passed on by handleConnectRequest; the transport's own for 'GET https://' or inside an
+// intercepted session, relayed by writeErrorResponse) and which upstream proxy answers.
+func connect101(x *xspec) string {
+	if x.Status != 101 {
+		return ""
+	}
+	switch x.Kind {
+	case "connect-reject":
+		return "client-connect/http-upstream"
+	case "up-reject":
+		if x.Via == "tup" {
+			return "client-connect/https-upstream"
 		}
+		return "client-connect/http-upstream"
+	case "f12-plain":
+		return "transport-connect/get-https"
+	case "f12-mitm":
+		return "transport-connect/intercepted"
 	}
-	for _, c := range rc.Conns {
-		walk(c.Exchanges)
-	}
-	return cls
+	return ""
 }
 
 // ---- world: the scripted peers of one worker ----
@@ -1143,6 +1154,9 @@ func runRound(ctx *core.Ctx, w *world, rc *roundCase) {
 			ctx.Count("kind/" + x.Kind)
 			if x.Kind == "status" && x.Status == 101 {
 				ctx.Count("regression/f42-101-not-a-switch")
+			}
+			if sh := connect101(&x); sh != "" {
+				ctx.Count(fmt.Sprintf("regression/f40-connect-answered-101/%s/handler=%v", sh, rc.Handler))
 			}
 			if x.Kind != "ok" || len(c.Exchanges) > 1 {
 				nontrivial = true
